@@ -1,3 +1,4 @@
+import Photon.Model.RwSpec
 import Photon.Properties.C03
 /-!
 # C06 — Reader-writer lock (`photon::rwlock`): writers exclusive, readers shared, failed lock is a no-op
@@ -151,3 +152,160 @@ theorem C06_no_stuck (s s' : St) (h : step s .quiescent = .ok s') (rw : Nat) (hr
               exact ⟨rw, hreg, hs⟩
 
 end Photon.Sync
+
+/-! ### API-level specification (`Model/RwSpec.lean`): `photon::qrwlock` (and, a second time, `photon::rwlock`)
+
+Every single-vCPU history of lock / try_lock / unlock calls and returns of the real lock (`harness/hsim_rw.cpp`) must be accepted
+by the automaton; the theorems are about every accepted history. -/
+namespace Photon.RwSpec
+
+theorem step_ok (s s' : St) (e : Ev) (h : step s e = .ok s') : pre s e = none ∧ s' = eff s e := by
+  unfold step at h
+  cases hp : pre s e with
+  | some m => rw [hp] at h; exact absurd h (by simp)
+  | none => rw [hp] at h; exact ⟨rfl, by injection h with h; exact h.symm⟩
+
+/-- **C06 (API level), grants are compatible.** A write lock is granted only on a free lock, a read lock only while no writer holds
+    it. -/
+theorem C06_api_grant (s s' : St) (t : Nat) (p : Pending) (hc : s.calls.find? (·.t == t) = some p)
+    (h : step s (.ret t true) = .ok s') :
+    (p.write = true → free s = true) ∧ (p.write = false → s.writer = none) := by
+  obtain ⟨hp, _⟩ := step_ok s s' _ h
+  simp only [pre, hc, if_true] at hp
+  constructor
+  · intro hw
+    rw [if_pos hw] at hp
+    cases hf : free s with
+    | true => rfl
+    | false => rw [hf] at hp; exact absurd hp (by simp)
+  · intro hw
+    have : ¬ p.write = true := by simp [hw]
+    rw [if_neg this] at hp
+    cases hn : s.writer with
+    | none => rfl
+    | some w => rw [hn] at hp; exact absurd hp (by simp)
+
+/-- **C06 (API level), a failed lock is a no-op** on the holders, and it fails only for a reason: a `try_lock` because an
+    incompatible holder exists, a `lock` because its timeout has expired. -/
+theorem C06_api_failed_noop (s s' : St) (t : Nat) (p : Pending) (hc : s.calls.find? (·.t == t) = some p)
+    (h : step s (.ret t false) = .ok s') :
+    s'.readers = s.readers ∧ s'.writer = s.writer ∧
+    (p.try_ = true → (p.write = true → free s = false) ∧ (p.write = false → s.writer.isSome = true)) ∧
+    (p.try_ = false → timedOut p.callAt p.to s.now = true) := by
+  obtain ⟨hp, hs⟩ := step_ok s s' _ h
+  refine ⟨by rw [hs]; simp [eff, hc], by rw [hs]; simp [eff, hc], ?_, ?_⟩
+  · intro ht
+    simp only [pre, hc, Bool.false_eq_true, if_false, ht, if_true] at hp
+    constructor
+    · intro hw
+      rw [if_pos hw] at hp
+      cases hf : free s with
+      | false => rfl
+      | true => rw [hf] at hp; exact absurd hp (by simp)
+    · intro hw
+      have : ¬ p.write = true := by simp [hw]
+      rw [if_neg this] at hp
+      cases hn : s.writer with
+      | some w => rfl
+      | none => rw [hn] at hp; exact absurd hp (by simp)
+  · intro ht
+    simp only [pre, hc, Bool.false_eq_true, if_false, ht] at hp
+    cases hto : timedOut p.callAt p.to s.now with
+    | true => rfl
+    | false => rw [hto] at hp; exact absurd hp (by simp)
+
+/-- **C06 (API level), after the last holder unlocks the waiters are admitted.** A quiescence point (every thread blocked) is
+    accepted only if the lock is held or nobody is blocked in `lock()`. -/
+theorem C06_api_admitted (s s' : St) (h : step s .quiescent = .ok s') (hf : free s = true) :
+    ∀ p ∈ s.calls, p.try_ = true := by
+  obtain ⟨hp, _⟩ := step_ok s s' _ h
+  simp only [pre] at hp
+  intro p hm
+  cases ht : p.try_ with
+  | true => rfl
+  | false =>
+    exfalso
+    have : free s = true ∧ (s.calls.any (fun p => !p.try_)) = true := ⟨hf, List.any_eq_true.2 ⟨p, hm, by simp [ht]⟩⟩
+    rw [if_pos this] at hp
+    exact absurd hp (by simp)
+
+/-- invariant: a writer excludes everybody else -/
+def Inv (s : St) : Prop := (s.writer.isSome = true → s.readers = []) ∧ (∀ w, s.writer = some w → ¬ w ∈ s.readers)
+
+theorem eff_inv (s : St) (e : Ev) (hi : Inv s) (hp : pre s e = none) : Inv (eff s e) := by
+  cases e with
+  | call t w to tr => exact hi
+  | overlap => exact hi
+  | tick n => exact hi
+  | quiescent => exact hi
+  | unlock t =>
+    simp only [eff]
+    split
+    · next hw =>
+      refine ⟨by simp, by simp⟩
+    · next hw =>
+      refine ⟨?_, ?_⟩
+      · intro h1
+        have := hi.1 h1
+        simp [this]
+      · intro w h1
+        have h1' : s.writer = some w := h1
+        have h2 : s.writer.isSome = true := by rw [h1']; rfl
+        have := hi.1 h2
+        simp [this]
+  | ret t ok =>
+    simp only [eff]
+    cases hc : s.calls.find? (·.t == t) with
+    | none => exact hi
+    | some p =>
+      simp only []
+      cases ok with
+      | false => exact hi
+      | true =>
+        simp only [if_true]
+        simp only [pre, hc, if_true] at hp
+        by_cases hw : p.write = true
+        · rw [if_pos hw] at hp ⊢
+          have hf : free s = true := by
+            cases hf : free s with
+            | true => rfl
+            | false => rw [hf] at hp; exact absurd hp (by simp)
+          simp only [free, Bool.and_eq_true, List.isEmpty_iff] at hf
+          refine ⟨fun _ => hf.1, ?_⟩
+          intro w _
+          simp [hf.1]
+        · rw [if_neg hw] at hp ⊢
+          have hn : s.writer = none := by
+            cases hn : s.writer with
+            | none => rfl
+            | some w => rw [hn] at hp; exact absurd hp (by simp)
+          refine ⟨?_, ?_⟩
+          · intro h1; simp [hn] at h1
+          · intro w h1; simp [hn] at h1
+
+theorem run_inv (evs : List Ev) : ∀ (s s' : St), Inv s → run s evs = .ok s' → Inv s' := by
+  induction evs with
+  | nil => intro s s' hi h; simp only [run] at h; injection h with h; subst h; exact hi
+  | cons e es ih =>
+    intro s s' hi h
+    simp only [run] at h
+    cases hs : step s e with
+    | error m => rw [hs] at h; exact absurd h (by simp)
+    | ok s1 =>
+      rw [hs] at h
+      obtain ⟨hp, he⟩ := step_ok s s1 e hs
+      exact ih s1 s' (by rw [he]; exact eff_inv s e hi hp) h
+
+/-- **C06 (API level), writers are exclusive** in every state reached by an accepted history: while a writer holds the lock
+    nobody holds it in read mode (and there is at most one writer by construction of the state). -/
+theorem C06_api_excl (evs : List Ev) (s : St) (h : run {} evs = .ok s) : s.writer.isSome = true → s.readers = [] :=
+  (run_inv evs {} s ⟨by simp, by simp⟩ h).1
+
+/-- non-vacuity: two readers share, a writer times out, then is admitted after the last reader unlocked -/
+example : (run {} [.call 1 false none false, .ret 1 true, .call 2 false none false, .ret 2 true, .call 3 true (some 50) false,
+    .quiescent, .tick 50, .ret 3 false, .call 3 true none false, .unlock 1, .quiescent, .unlock 2, .ret 3 true, .quiescent]).isOk = true := by decide
+/-- the history of seeded change C06-m3 (a notified waiter past its deadline swallows the wake-up) is rejected -/
+example : (run {} [.call 1 true none false, .ret 1 true, .call 2 true (some 300) false, .call 3 true none false, .tick 500,
+    .unlock 1, .ret 2 false, .quiescent]).isOk = false := by decide
+
+end Photon.RwSpec
